@@ -465,7 +465,8 @@ def r185(P, rep):
 
 
 def r187(P, rep):
-    rep.rule('R18.7', 'gen_expr and gen_stmt emit `.loc <file_no of the node\'s token> <its line_no>` before any other output; '
+    rep.rule('R18.7', 'on every path of gen_expr and gen_stmt, entered in any remembered state (statics, written globals), the first line written for the node itself '
+             '(helpers followed, generation of other nodes cut by contract) is `.loc <file_no of the node\'s token> <its line_no>`; '
              'codegen emits one `.file <file_no> "<name>"` per input file before any code; tokenize_file registers every file under its own number', floor=6)
     u = P.unit(CG)
     _r187_generators(P, u, rep)
